@@ -241,7 +241,7 @@ protected:
 
     FASTOR_INLINE void complex_mask_aligned_load(const scalar_value_type *data, uint8_t mask) {
 #ifdef FASTOR_HAS_AVX512_MASKS
-        __m512d lo, hi;
+        __m512d lo = _mm512_setzero_pd(), hi = _mm512_setzero_pd();
         uint8_t mask0, mask1;
         split_mask<Size>(mask, mask0, mask1);
         lo = _mm512_mask_load_pd(lo, mask0, reinterpret_cast<const double*>(data  ));
@@ -262,7 +262,7 @@ protected:
     }
     FASTOR_INLINE void complex_mask_unaligned_load(const scalar_value_type *data, uint8_t mask) {
 #ifdef FASTOR_HAS_AVX512_MASKS
-        __m512d lo, hi;
+        __m512d lo = _mm512_setzero_pd(), hi = _mm512_setzero_pd();
         uint8_t mask0, mask1;
         split_mask<Size>(mask, mask0, mask1);
         lo = _mm512_mask_loadu_pd(lo, mask0, reinterpret_cast<const double*>(data  ));
@@ -761,7 +761,7 @@ protected:
 
     FASTOR_INLINE void complex_mask_aligned_load(const scalar_value_type *data, uint8_t mask) {
 #ifdef FASTOR_HAS_AVX512_MASKS
-        __m256d lo, hi;
+        __m256d lo = _mm256_setzero_pd(), hi = _mm256_setzero_pd();
         uint8_t mask0, mask1;
         split_mask<Size>(mask, mask0, mask1);
         lo = _mm256_mask_load_pd(lo, mask0, reinterpret_cast<const double*>(data  ));
@@ -782,7 +782,7 @@ protected:
     }
     FASTOR_INLINE void complex_mask_unaligned_load(const scalar_value_type *data, uint8_t mask) {
 #ifdef FASTOR_HAS_AVX512_MASKS
-        __m256d lo, hi;
+        __m256d lo = _mm256_setzero_pd(), hi = _mm256_setzero_pd();
         uint8_t mask0, mask1;
         split_mask<Size>(mask, mask0, mask1);
         lo = _mm256_mask_loadu_pd(lo, mask0, reinterpret_cast<const double*>(data  ));
@@ -1297,7 +1297,7 @@ protected:
 
     FASTOR_INLINE void complex_mask_aligned_load(const scalar_value_type *data, uint8_t mask) {
 #ifdef FASTOR_HAS_AVX512_MASKS
-        __m128d lo, hi;
+        __m128d lo = _mm_setzero_pd(), hi = _mm_setzero_pd();
         uint8_t mask0, mask1;
         split_mask<Size>(mask, mask0, mask1);
         lo = _mm_mask_load_pd(lo, mask0, reinterpret_cast<const double*>(data  ));
@@ -1318,7 +1318,7 @@ protected:
     }
     FASTOR_INLINE void complex_mask_unaligned_load(const scalar_value_type *data, uint8_t mask) {
 #ifdef FASTOR_HAS_AVX512_MASKS
-        __m128d lo, hi;
+        __m128d lo = _mm_setzero_pd(), hi = _mm_setzero_pd();
         uint8_t mask0, mask1;
         split_mask<Size>(mask, mask0, mask1);
         lo = _mm_mask_loadu_pd(lo, mask0, reinterpret_cast<const double*>(data  ));
